@@ -241,10 +241,13 @@ def load_known():
     return d.get("findings", [])
 
 
-def match_known(prop, key, known):
+def match_known(prop, key, known, what=""):
+    """an open entry matches by key pattern and, when it carries 'requires', only if every string of that list occurs in the violation's description
+    (a call site or frame: keeps an entry from covering other violations that end in the same function)"""
     for f in known:
         if f.get("property") in (prop, "*") and f.get("status") == "open" and key is not None and fnmatch.fnmatchcase(key, f.get("key", "")):
-            return f
+            if all(x in (what or "") for x in f.get("requires", [])):
+                return f
     return None
 
 
@@ -402,7 +405,7 @@ def _run(mod, ctx, args, t0):
     # known findings
     new, knownhits = {}, {}
     for key, what, replay, r in viol:
-        f = match_known(ctx.prop, key, known)
+        f = match_known(ctx.prop, key, known, what)
         if f:
             knownhits.setdefault(f["key"], (f, 0))
             knownhits[f["key"]] = (f, knownhits[f["key"]][1] + 1)
